@@ -32,6 +32,8 @@ where
         }
 
         let err = self.set_conn_error(error.into());
+        #[cfg(feature = "verif-hooks")]
+        crate::verif::preempt("driver.stored_before_close");
         let err = self.close_if_needed(err);
         // err might be a different error so match again
         self.convert_to_connection_error(err)
@@ -80,7 +82,11 @@ where
             // err might be a different error so match again
             return Poll::Ready(Err(self.convert_to_connection_error(err)));
         }
+        #[cfg(feature = "verif-hooks")]
+        crate::verif::preempt("driver.checked_before_register");
         self.waker().register(cx.waker());
+        #[cfg(feature = "verif-hooks")]
+        crate::verif::preempt("driver.registered");
         Poll::Pending
     }
 
